@@ -40,11 +40,11 @@ func utf8Fixed() []scase {
 		return scase{ChunkSize: 4000, Utf8: &utf8Case{TagsHx: hxAll(tags...), PipesHx: hxAll(pipes...)}}
 	}
 	return []scase{
-		mk([]string{"a=x\xffy", "a=x\xfey", "b=ok"}, nil), // two keys, one image: the restart is refused
-		mk([]string{"a=x\xffy", "b=ok"}, nil),             // one key changes
-		mk([]string{"b=ok"}, []string{"p\xff"}),           // a pipe name changes
+		mk([]string{"a=x\xffy", "a=x\xfey", "b=ok"}, nil),                                   // two keys, one image: the restart is refused
+		mk([]string{"a=x\xffy", "b=ok"}, nil),                                               // one key changes
+		mk([]string{"b=ok"}, []string{"p\xff"}),                                             // a pipe name changes
 		mk([]string{"a=xéy", "b=€", "c=\xef\xbf\xbd", "d=\"q\xffr\""}, []string{"pé", "t"}), // valid UTF-8 (and a quoted value, which tag.Parse sanitises itself): survives exactly
-		mk([]string{"a=\xed\xa0\x80", "b=\xf4\x90\x80\x80"}, nil),                          // surrogate / beyond U+10FFFF encodings are invalid
+		mk([]string{"a=\xed\xa0\x80", "b=\xf4\x90\x80\x80"}, nil),                           // surrogate / beyond U+10FFFF encodings are invalid
 	}
 }
 
